@@ -204,7 +204,12 @@ func runC17(c *Ctx) {
 		}
 	}
 	c.Check("C17.D1", "creation-call-tree", len(fs) > 30 && nRanges > 0, 0, fmt.Sprintf("%d functions reachable from the creation / request-building entry points; %d map iterations inspected for order-sensitive effects", len(fs), nRanges))
-	c.Min("C17.D1", 1)
+	if w, err := buildWitness(c.Fset); err == nil {
+		c.alive("C17.D1", "append in map iteration order", len(c.mapRangeOrderEffects(w.fns["mapOrderWitness"])) > 0, len(c.mapRangeOrderEffects(w.fns["hashOK"])) == 0)
+	} else {
+		c.Check("C17.D1", "positive-example:build", false, 0, "built-in positive examples could not be built: "+err.Error())
+	}
+	c.Min("C17.D1", 2)
 
 	// ---- G1 initial state / suffix / short form
 	pis := c.Fn(pParser, "parseInitialState")
